@@ -374,7 +374,10 @@ where
     }
 
     fn get_data_or_decode(&self, id: PlainRef, range: Range<usize>, filters: &[StreamFilter]) -> Result<Arc<[u8]>> {
-        self.storage.stream_cache.get_or_compute(id, || self.storage.decode(id, range, filters).map_err(Arc::new))
+        // the decoded bytes depend on how many filters of the stream are applied (raw_image_data stops before the
+        // image codec): the cache is keyed by the object number and that count
+        let key = PlainRef { id: id.id, gen: filters.len() as GenNr };
+        self.storage.stream_cache.get_or_compute(key, || self.storage.decode(id, range, filters).map_err(Arc::new))
         .map_err(|e| e.into())
     }
 }
